@@ -102,6 +102,19 @@ func (filter *SearchableQueryFilter) ChangeSearchableOperator(expr *pg_query.A_E
 	}
 }
 
+// isComparisonKind tells whether an expression node compares its two operands with the operator it names.
+// NULLIF(a, b), a = ANY (array), a IN (..) and a BETWEEN .. are expression nodes named "=" / "<>" as well, but their right
+// side is not the compared value or their result is not a truth value: handled as a comparison they would be rewritten into
+// a statement that means something else (NULLIF would return the hash, = ANY would compare with the hash of the array)
+func isComparisonKind(expr *pg_query.A_Expr) bool {
+	switch expr.GetKind() {
+	case pg_query.A_Expr_Kind_AEXPR_OP, pg_query.A_Expr_Kind_AEXPR_DISTINCT, pg_query.A_Expr_Kind_AEXPR_NOT_DISTINCT,
+		pg_query.A_Expr_Kind_AEXPR_LIKE, pg_query.A_Expr_Kind_AEXPR_ILIKE:
+		return true
+	}
+	return false
+}
+
 func filterTableExpressions(parseResult *pg_query.ParseResult) ([]*pg_query.Node, error) {
 	switch {
 	case parseResult.Stmts[0].Stmt.GetSelectStmt() != nil:
@@ -138,7 +151,7 @@ func (filter *SearchableQueryFilter) filterColumnEqualComparisonExprs(whereNode 
 
 	err := pg_query.Walk(func(node *pg_query.Node) (kontinue bool, err error) {
 		expr := node.GetAExpr()
-		if expr == nil {
+		if expr == nil || !isComparisonKind(expr) {
 			return true, nil
 		}
 
